@@ -455,7 +455,7 @@ func genConfig(r rng, seed uint64, id string, merge bool) *sdl.Program {
 		if merge && s.Kind == "args" && r.p(0.5) {
 			// a command-line source that blanks a string key (`--app.config=key=`): the key is
 			// supplied, with the empty string
-			setPath(s.Doc, pick(r, cfgLeafStrs), "")
+			setPath(s.Doc, pick(r, cfgLeafStrs), pick(r, []string{"", "", "p=q", "a=b=c"}))
 		}
 		if r.p(0.06) && !many {
 			switch s.Kind {
@@ -511,6 +511,27 @@ func genConfig(r rng, seed uint64, id string, merge bool) *sdl.Program {
 	if merge && r.p(0.35) {
 		p.Warmup = true
 	}
+	if merge {
+		for _, e := range p.Sources {
+			// an ordered loader handed over by value (its type is not hashable)
+			if e.Kind == "sim" && (e.OrderClass == "ordered" || e.OrderClass == "priority") && r.p(0.25) {
+				e.ByValue = true
+			}
+		}
+		// a source whose content changes while the container lives: the configuration is
+		// initialised a second time and every source is merged again, in sequence
+		if r.p(0.25) {
+			for _, e := range model.ActiveSources(p) {
+				if e.Kind == "sim" && e.Fault == "" && !e.ByValue && r.p(0.6) {
+					e.Doc2 = genDoc(r, 0.5)
+					if len(e.Doc2) == 0 {
+						setPath(e.Doc2, "sim.a", r.n(1, 9))
+					}
+					break
+				}
+			}
+		}
+	}
 	// reload: a source added after Run, followed by a second initialisation
 	if merge && r.p(0.3) {
 		s := &sdl.Source{ID: fmt.Sprintf("src%d", ns), Kind: pick(r, []string{"sim", "sim", "raw", "file"}), Via: "AddLoaders", Doc: genDoc(r, 0.5), Late: true}
@@ -520,6 +541,14 @@ func genConfig(r rng, seed uint64, id string, merge bool) *sdl.Program {
 		}
 		if len(s.Doc) == 0 {
 			setPath(s.Doc, "sim.b", r.n(1, 9))
+		}
+		// ... or it is registered by a bootstrap loader from inside its LoadConfig
+		if r.p(0.4) {
+			for _, e := range model.ActiveSources(p) {
+				if e.Kind == "sim" && e.Fault == "" && s.SpawnedBy == "" {
+					s.SpawnedBy = e.ID
+				}
+			}
 		}
 		p.Sources = append(p.Sources, s)
 		// a loader that settles its order late: the second initialisation sequences it anew
@@ -572,6 +601,10 @@ func genConfig(r rng, seed uint64, id string, merge bool) *sdl.Program {
 			// a struct whose constraints sit behind a pointer, in several components and sections
 			t.Config = append(t.Config, &sdl.Conf{Field: "CN", Menu: "prefixNest", Keys: []string{pick(r, []string{"sim.nest", "alt.nest"})}, GoType: "nest", Validate: "struct", Optional: r.p(0.6)})
 		}
+		if !merge && r.p(0.12) {
+			// a struct with a required by-value struct member
+			t.Config = append(t.Config, &sdl.Conf{Field: "CQ", Menu: "prefixReq", Keys: []string{pick(r, []string{"sim.nest", "alt.nest"})}, GoType: "req", Validate: "struct", Optional: r.p(0.5)})
+		}
 		if r.p(0.2) {
 			// a prefix-bound struct declared as a tagged anonymous field
 			t.Config = append(t.Config, &sdl.Conf{Field: "CfgAB", Menu: "prefixStruct", Keys: []string{"sim.sub"}, GoType: "struct",
@@ -600,7 +633,7 @@ func genConfig(r rng, seed uint64, id string, merge bool) *sdl.Program {
 		for ti, t := range p.Types {
 			var keep []*sdl.Conf
 			for _, cf := range t.Config {
-				if cf.Menu != "prefixNest" && cf.Menu != "typePrefix" && cf.Menu != "typePrefixDyn" {
+				if cf.Menu != "prefixNest" && cf.Menu != "prefixReq" && cf.Menu != "typePrefix" && cf.Menu != "typePrefixDyn" {
 					// (nothing else in these programs can make the start fail)
 					cf.Optional, cf.Validate = true, ""
 					keep = append(keep, cf)
